@@ -108,6 +108,33 @@ KIT_CHANGED = KIT.replace("def kind(thing):\n    return type(thing).__name__",
                  .replace("def same(thing):\n    return thing", "def same(thing):\n    return [thing]") \
                  .replace("class Stack(list):", "class Stack(list):\n    changed = True")
 
+# student classes NAMED like the builtin they derive from (the type's NAME says nothing either)
+KIT_SHADOW = '''plain_list, plain_float, plain_str, plain_int = list, float, str, int
+class list(list):
+    def peek(self):
+        return self[-1]
+class float(float):
+    def to_fahrenheit(self):
+        return self * 9 / 5 + 32
+class str(str):
+    def initials(self):
+        return self[:1].upper() + '.'
+class int(int):
+    def stars(self):
+        return '*' * self
+def kind(thing):
+    return [type(thing).__name__, type(thing) in (plain_list, plain_float, plain_str, plain_int)]
+def same(thing):
+    return thing
+def special(thing):
+    for name in ('peek', 'to_fahrenheit', 'initials', 'stars'):
+        if hasattr(thing, name):
+            return getattr(thing, name)()
+    return thing.nothing_special
+'''
+SHADOW_PAIRS = [("[1, 2, 3]", "list([1, 2, 3])"), ("21.5", "float(21.5)"), ("'abc'", "str('abc')"), ("7", "int(7)"),
+                ("[]", "list()"), ("0.0", "float()"), ("''", "str()"), ("0", "int()")]
+
 # values that share their repr text and/or compare equal and/or hash equal - and are of different types
 GROUPS = {
     "list": ["[1, 2, 3]", "Stack([1, 2, 3])", "Fake('[1, 2, 3]')", "Same('[1, 2, 3]')"],
@@ -295,6 +322,12 @@ def history_cases(rng, tier, repo=REPO):
             cases.append(mk([let("old = %s" % b), call("kind", ["old"]), {"op": "rerun"}, let("new = %s" % b),
                              call("kind", ["new"]), call("kind", ["old"]), call("special", ["old"]), call("kinds", ["old", "new", a])],
                             "old-instance:%s" % g, rng))
+    # 4b. student classes named like their builtin base
+    for a, b in (rng.sample(SHADOW_PAIRS, 4) if quick else SHADOW_PAIRS):
+        for x, y in ((a, b), (b, a)):
+            f = rng.choice(["kind", "same", "special"])
+            cases.append(mk([call(f, [x]), call(f, [y]), call("kind", [x]), call("special", [y])],
+                            "shadowed-builtin-name", rng, code=KIT_SHADOW))
     # 5. fresh temporaries of the same size one after the other (an address is reused), long ones too
     for width in ([3] if quick else [1, 3, 8]) + [k + 2]:
         steps = []
